@@ -263,3 +263,40 @@ Proof.
     + apply IH. exact Hacc.
 Qed.
 
+
+(* ---- round 5: the same flag texts in both dialects ---- *)
+Definition unpaddedb (keys : list string) : bool := forallb (fun k => String.eqb (trim_space k) k) keys.
+
+Lemma map_trim_unpadded keys : unpaddedb keys = true -> map trim_space keys = keys.
+Proof.
+  induction keys as [|k r IH]; simpl; intros H; [reflexivity|].
+  apply andb_true_iff in H as [Hk Hr]. apply String.eqb_eq in Hk. rewrite Hk, IH by exact Hr. reflexivity.
+Qed.
+
+Lemma frontends_same_keys reg all en dis c :
+  unpaddedb (split_on comma en) = true -> unpaddedb (split_on comma dis) = true ->
+  String.eqb dis "<default>" = false ->
+  cli_selected reg {| cf_all := all; cf_enable := Some en; cf_disable := Some dis |} c
+  = an_selected {| af_all := all; af_enable := Some en; af_disable := Some dis |} c.
+Proof.
+  intros He Hd Hdef. unfold cli_selected, an_selected, cli_enable_keys, cli_disable_keys, an_disable_arg, split_values.
+  simpl. rewrite Hdef. rewrite (map_trim_unpadded _ He), (map_trim_unpadded _ Hd). reflexivity.
+Qed.
+
+(* the analyzer on padded lists is the CLI on the trimmed lists *)
+Lemma analyzer_is_cli_on_trimmed all en dis c :
+  String.eqb dis "<default>" = false ->
+  an_selected {| af_all := all; af_enable := Some en; af_disable := Some dis |} c
+  = filter_selected all (map trim_space (split_on comma en)) (map trim_space (split_on comma dis)) c.
+Proof.
+  intros Hdef. unfold an_selected, an_disable_arg, split_values. simpl. rewrite Hdef. reflexivity.
+Qed.
+
+Lemma frontends_padded_refuted :
+  exists reg all en dis c, In c reg /\ valid_checker c = true /\ String.eqb dis "<default>" = false /\
+    cli_selected reg {| cf_all := all; cf_enable := Some en; cf_disable := Some dis |} c
+    <> an_selected {| af_all := all; af_enable := Some en; af_disable := Some dis |} c.
+Proof.
+  exists [{| cname := "dupArg"; ctags := ["diagnostic"] |}], false, " dupArg", "", {| cname := "dupArg"; ctags := ["diagnostic"] |}.
+  repeat split; try reflexivity; [left; reflexivity|vm_compute; discriminate].
+Qed.
